@@ -17,6 +17,10 @@ package raftlog_test
 //
 // No state merging: the writer's per-scope cache (cached tail, cached metadata) and the LSM
 // are hidden state, so the enumeration is over event sequences (Canon() == "").
+//
+// This file is the black-box half (package raftlog_test, exported API only). It registers
+// itself with the in-package half (c14_crash_test.go, which owns TestVerifC14) so that both
+// run in one test binary and write one result.
 
 import (
 	"context"
@@ -29,13 +33,13 @@ import (
 	"time"
 
 	"github.com/WuKongIM/WuKongIM/pkg/raftlog"
-	"github.com/cockroachdb/pebble/v2"
-	"github.com/cockroachdb/pebble/v2/vfs"
-	"github.com/WuKongIM/WuKongIM/pkg/zzverif/crashfs"
 	"github.com/WuKongIM/WuKongIM/pkg/slot/multiraft"
 	"github.com/WuKongIM/WuKongIM/pkg/zzverif/c14model"
+	"github.com/WuKongIM/WuKongIM/pkg/zzverif/crashfs"
 	"github.com/WuKongIM/WuKongIM/pkg/zzverif/ev"
 	"github.com/WuKongIM/WuKongIM/pkg/zzverif/mc"
+	"github.com/cockroachdb/pebble/v2"
+	"github.com/cockroachdb/pebble/v2/vfs"
 )
 
 const c14DirPrefix = "verif-C14-"
@@ -48,9 +52,9 @@ var (
 	c14Opens    atomic.Int64
 
 	// vacuity counters
-	c14nTrunc, c14nReplaceLast, c14nCompactKeep, c14nCompactAll, c14nInstall, c14nInstMid atomic.Int64
+	c14nTrunc, c14nReplaceLast, c14nCompactKeep, c14nCompactAll, c14nInstall, c14nInstMid           atomic.Int64
 	c14nReopenSnap, c14nReopenDirty, c14nMultiChunk, c14nBothScopes, c14nBelowProbe, c14nConfChange atomic.Int64
-	c14nSizeCut                                                                                   atomic.Int64
+	c14nSizeCut                                                                                     atomic.Int64
 )
 
 type c14Backend struct {
